@@ -277,7 +277,9 @@ pub fn build(
                     if let ("size", [grammar::Expr::IntLiteral(size_)]) =
                         (ident.as_str(), exprs.as_slice())
                     {
-                        size = Some(*size_ as usize);
+                        size = Some(usize::try_from(*size_).with_context(|| {
+                            format!("failed to convert vftable `size` attribute into usize for type `{resolvee_path}`")
+                        })?);
                     }
                 }
 
